@@ -135,8 +135,13 @@ func newCreateTable(ct sql.CreateTableStmt) (*Schema, error) {
 			autoindex++
 		}
 	}
-	for _, c := range ct.Columns {
+	// INTEGER(10) is not the type INTEGER where the rowid alias is concerned
+	hasTypeArgs := func(column int) bool {
+		return column < len(ct.TypeArgs) && ct.TypeArgs[column] != ""
+	}
+	for i, c := range ct.Columns {
 		c := c
+		integerKey := !hasTypeArgs(i) && isRowid(false, c.Type, c.PrimaryKeyDir)
 		st.Columns = append(st.Columns, TableColumn{
 			Column:  c.Name,
 			Type:    c.Type,
@@ -147,7 +152,7 @@ func newCreateTable(ct sql.CreateTableStmt) (*Schema, error) {
 		})
 		col := &st.Columns[len(st.Columns)-1]
 		primaryKey := func() {
-			col.Rowid = (!ct.WithoutRowid) && isRowid(false, c.Type, c.PrimaryKeyDir)
+			col.Rowid = (!ct.WithoutRowid) && integerKey
 			col.Null = !ct.WithoutRowid && c.Null // w/o rowid forces not null
 			cols := []IndexColumn{
 				{
@@ -159,7 +164,7 @@ func newCreateTable(ct sql.CreateTableStmt) (*Schema, error) {
 			switch {
 			case ct.WithoutRowid:
 				// non-rowid primary keys have a special place
-				withoutRowidPK(cols, isRowid(false, c.Type, c.PrimaryKeyDir))
+				withoutRowidPK(cols, integerKey)
 			case col.Rowid:
 				st.RowidPK = true
 			default:
@@ -197,12 +202,13 @@ constraint:
 			aliasable := false
 			if len(c.IndexedColumns) == 1 {
 				// could this column be an alias for the rowid?
-				col := st.column(c.IndexedColumns[0].Column)
-				if col == nil {
+				n := st.Column(c.IndexedColumns[0].Column)
+				if n < 0 {
 					// unknown column, or an expression
 					return nil, ErrInvalidDef
 				}
-				aliasable = isRowid(true, col.Type, c.IndexedColumns[0].SortOrder)
+				col := &st.Columns[n]
+				aliasable = !hasTypeArgs(n) && isRowid(true, col.Type, c.IndexedColumns[0].SortOrder)
 				if aliasable && !ct.WithoutRowid {
 					col.Rowid = true
 					st.RowidPK = true
